@@ -22,6 +22,7 @@ ALPHA = [-2.5, -1.0, 0.0, 0.123, 0.5, 1.0, 1.789, 4.0]
 INT_ALPHA = [0, 1, 2, 3, 5]
 SMALL_ALPHA = [-1.0, 0.5, 4.0]
 UNIT = (0.0, 0.5, env.ONE_MINUS)
+UNITS = {'full': UNIT, 'ends': (0.0, env.ONE_MINUS)}
 _VEC = {}
 
 
@@ -812,13 +813,14 @@ def evaluate(c, x, arr, o, drew_float=False):
 def run_case(c, x, arr, chooser, rng=None):
     """one execution under the given chooser -> (violations, outcome, kind, changed, o, ndraws)"""
     if rng is None:
-        rng = env.ScriptedRandom(chooser, unit=UNIT, vector_draws=c.get('draws', 'shared'))
+        rng = env.ScriptedRandom(chooser, unit=UNITS[c.get('unit', 'full')], vector_draws=c.get('draws', 'shared'))
         with env.owned_random(rng):
             o = execute(c, x, arr, rng)
     else:
         rng.ch = chooser
         rng.log = []
         rng.vector_draws = c.get('draws', 'shared')
+        rng.unit = UNITS[c.get('unit', 'full')]
         o = execute(c, x, arr, rng)
     drew_float = any(k[0] == 'random' for k in rng.log)
     V, outcome, kind, changed = evaluate(c, x, arr, o, drew_float)
@@ -842,9 +844,12 @@ def configs(thorough):
         for idx in INDEXES:
             for clip in (True, False):
                 for nearest in (True, False):
-                    for d in (draws if not clip else ['shared']):
-                        C.append({'fam': 'bounds', 'form': form, 'bounds': b, 'index': idx, 'clip': clip,
-                                  'nearest': nearest, 'draws': d})
+                    for d in (draws if (not clip and nearest) else ['shared']):
+                        c = {'fam': 'bounds', 'form': form, 'bounds': b, 'index': idx, 'clip': clip,
+                             'nearest': nearest, 'draws': d, 'unit': 'full' if thorough else 'ends'}
+                        if d == 'each':
+                            c['inputs'] = 'general3'
+                        C.append(c)
     sets = [[1.0], [2.0, 1.0], [0.0, 1.0, 4.0]] + ([[-1.0, 0.5], [0.123, 1.789, -2.5]] if thorough else [])
     for s in sets:
         for idx in INDEXES:
@@ -910,6 +915,8 @@ def inputs_for(c, thorough):
     kind = c.get('inputs', 'general')
     if kind == 'general':
         return vectors(ALPHA, 1, 4)
+    if kind == 'general3':
+        return vectors(ALPHA, 1, 3)
     if kind == 'int':
         return vectors(INT_ALPHA, 1, 4)
     if kind == 'small':
@@ -998,21 +1005,31 @@ def shard(item):
 def run(ctx):
     thorough = ctx.thorough
     C = configs(thorough)
+    import os
+    only = os.environ.get('VERIF_C16_FAMILIES')   # debugging aid: restrict to some families (reported as a cap)
+    if only:
+        C = [c for c in C if c['fam'] in only.split(',')]
+        ctx.cap('restricted to families %s by VERIF_C16_FAMILIES' % only)
     items = []
     batch, bw = [], 0.0
     for c in sorted(C, key=lambda c: -weight(c)):
         w = weight(c)
-        if c.get('inputs', 'general') == 'general' and w >= 1.0:
-            nchunks = max(1, min(64, int(round(w / 4.0))))
+        kind = c.get('inputs', 'general')
+        if kind in ('general', 'general3', 'int', 'pairs'):
+            if c['fam'] == 'bounds':
+                nchunks = 32 if (not c['clip'] and kind == 'general') else 8
+            elif c['fam'] == 'unique':
+                nchunks = 16 if kind == 'int' else 2
+            elif kind == 'pairs':
+                nchunks = 16
+            else:
+                nchunks = 4 if w > 1.0 else 2
             for k in range(nchunks):
                 items.append(([c], k, nchunks, thorough))
-        elif c.get('inputs') == 'pairs':
-            for k in range(16):
-                items.append(([c], k, 16, thorough))
         else:
             batch.append(c)
             bw += w
-            if bw >= 4.0:
+            if bw >= 2.0:
                 items.append((batch, 0, 1, thorough))
                 batch, bw = [], 0.0
     if batch:
